@@ -105,11 +105,14 @@ func Load() (*Table, error) {
 			ln, _ := strconv.Atoi(m[5])
 			e := Elem{Name: m[1], ID: uint16(id), Ent: uint32(ent), Type: refipfix.Type(ty), Len: uint16(ln)}
 			add(e, true)
-			if e.Ent == 0 && !nonRev[e.Name] && e.Name != "" {
+			if e.Ent == 0 && !nonRev[e.Name] {
 				// RFC 5103: reverse element under PEN 29305, same id/type/length, "reverse"+Name
 				r := e
 				r.Ent = 29305
-				r.Name = "reverse" + strings.ToUpper(e.Name[:1]) + e.Name[1:]
+				r.Name = "reverse"
+				if e.Name != "" {
+					r.Name = "reverse" + strings.ToUpper(e.Name[:1]) + e.Name[1:]
+				}
 				add(r, true)
 			}
 		}
